@@ -102,6 +102,10 @@ func runC15(c *run.Ctx) {
 	for i := 0; i < n && !c.TooMany(); i++ {
 		r := c.Rand(i)
 		ms := gen.TypeSchema(r, gen.TypeOpts{NastyStrings: true, Directives: true, CustomRoots: true, Small: i%2 == 0})
+		if i%4 == 1 {
+			// hand-written looking descriptions: padded with blanks, with a quote inside (the comparison below is ggql with ggql)
+			c.Count("padded_descriptions", gen.PadDescriptions(r, ms))
+		}
 		sdl := ms.SDL(model.SDLOpts{BlockDesc: i%3 == 0})
 		nontriv := strings.ContainsAny(sdl, "\\") || strings.Contains(sdl, " @")
 		c.Eval(sdl, nontriv)
